@@ -127,7 +127,7 @@ class Gen(object):
         self.many_ids = (prop in ("C07", "C08") and rng.random() < (0.015 if tier == "quick" else 0.03)) or (prop == "C12" and rng.random() < (0.02 if tier == "quick" else 0.04)) or (prop == "C11" and rng.random() < (0.006 if tier == "quick" else 0.012))
         # swarm: in some runs the caller's input streams (add_pages / add_links arguments) fail mid-request
         self.input_faults = prop in ("C01", "C02", "C03", "C04", "C05", "C06", "C07", "C08", "C12", "C13", "C19", "C20", "C11", "C15") and rng.random() < 0.3
-        self.bulk = prop in ("C03", "C07", "C08", "C10", "C15", "C18", "C20") and rng.random() < ((0.01 if tier == "quick" else 0.03) if prop != "C18" else 0.06)
+        self.bulk = prop in ("C03", "C07", "C08", "C10", "C11", "C15", "C18", "C20") and rng.random() < ((0.01 if tier == "quick" else 0.03) if prop not in ("C18", "C11") else 0.06)
         self.created_prefixes = []  # prefixes named in webentity ops so far (for refs)
         self.queue = []  # ops to emit next (follow-ups of an abandoned request)
         self.link_ends = []  # LRUs named as link ends so far
@@ -212,7 +212,7 @@ class Gen(object):
             self.bulk = False
             tgt = self.lru()
             links = [[enc(self.lru()), enc(tgt)] for _ in range(r.choice([1, 2, 3]))]
-            return {"op": k, "links": links, "repeat": r.choice([2100, 4097, 5001]) if self.prop not in ("C15", "C18") else (r.choice([260, 300]) if self.prop == "C18" else r.choice([300, 600, 2100]))}
+            return {"op": k, "links": links, "repeat": r.choice([2100, 4097, 5001]) if self.prop not in ("C15", "C18", "C11") else (r.choice([260, 300]) if self.prop in ("C18", "C11") else r.choice([300, 600, 2100]))}
         if k == "add_links" and r.random() < 0.03:
             return {"op": k, "links": []}
         if k == "add_links" and r.random() < 0.03:
